@@ -719,8 +719,9 @@ PROPS["C08"] = {
 }
 
 PROPS["C20"] = {
-    "modules": ["Gmsm.Props.C20", "Gmsm.Props.C20Interlock", "Gmsm.Props.C20Locks", "Gmsm.Props.C17Mem", "Gmsm.Props.C20Reneg", "Gmsm.Props.C09Template", "Gmsm.Props.C20Shared"],
+    "modules": ["Gmsm.Props.C20", "Gmsm.Props.C20Interlock", "Gmsm.Props.C20Locks", "Gmsm.Props.C17Mem", "Gmsm.Props.C20Reneg", "Gmsm.Props.C09Template", "Gmsm.Props.C20Shared", "Gmsm.Props.C20Pool"],
     "theorems": [
+        "Props.C20Pool.appendEach_frame", "Props.C20Pool.candMem_frame", "Props.C20Pool.candAlias_writes_pool_memory", "Props.C20Pool.candMem_same_candidates", "Props.C20Pool.candAlias_interleaving_witness", "Props.C20Pool.candMem_interleaving",
         "Props.C20Shared.write_needs_exclusive", "Props.C20Shared.read_needs_lock", "Props.C20Shared.init_only_written_fresh", "Props.C20Shared.config_write_protected", "Props.C20Shared.unguarded_writer_listed", "Props.C20Shared.discipline_splits", "Props.C20Shared.subsetOf_sound", "Props.C20Shared.writers_complete", "Props.C20Shared.writersObj_complete", "Props.C20Shared.no_problems", "Props.C20Shared.discipline_ok", "Props.C20Shared.writes_held", "Props.C20Shared.reads_held", "Props.C20Shared.cache_always_exclusive", "Props.C20Shared.ticket_key_writers", "Props.C20Shared.config_field_writers", "Props.C20Shared.cache_writers", "Props.C20Shared.certpool_writers", "Props.C20Shared.no_reentrant_calls", "Props.C20Shared.facts_present",
         "Props.C20Reneg.step_sums", "Props.C20Reneg.next_of_none", "Props.C20Reneg.next_of_some", "Props.C20Reneg.run_nil", "Props.C20Reneg.run_cons", "Props.C20Reneg.run_append", "Props.C20Reneg.Inv.step", "Props.C20Reneg.sumBy_init", "Props.C20Reneg.Inv.init", "Props.C20Reneg.Inv.next", "Props.C20Reneg.Inv.run", "Props.C20Reneg.inv_reachable", "Props.C20Reneg.localStep_kind", "Props.C20Reneg.next_kinds", "Props.C20Reneg.run_kinds", "Props.C20Reneg.run_length", "Props.C20Reneg.write_never_internal_error", "Props.C20Reneg.write_outcomes_ok", "Props.C20Reneg.sumBy_const_of_all", "Props.C20Reneg.start_kinds", "Props.C20Reneg.countP_writer_kinds", "Props.C20Reneg.writes_all_delivered", "Props.C20Reneg.no_appdata_mid_handshake", "Props.C20Reneg.write_never_runs_handshake", "Props.C20Reneg.complete_when_write_holds_hs", "Props.C20Reneg.step_isSome", "Props.C20Reneg.localStep_isSome_outHolder", "Props.C20Reneg.localStep_isSome_hsHolder", "Props.C20Reneg.localStep_isSome_free", "Props.C20Reneg.sumBy_add", "Props.C20Reneg.no_deadlock", "Props.C20Reneg.waitOut_add_notWait", "Props.C20Reneg.step_measure", "Props.C20Reneg.mu_next_le", "Props.C20Reneg.mu_run_le", "Props.C20Reneg.step_none_of_done", "Props.C20Reneg.run_of_done", "Props.C20Reneg.lt_length_of_isSome", "Props.C20Reneg.round_progress", "Props.C20Reneg.fair_termination", "Props.C20Reneg.localRem_init_le", "Props.C20Reneg.mu_init_le", "Props.C20Reneg.progress", "Props.C20Reneg.old_write_internal_error_witness", "Props.C09Template.seqWith_const", "Props.C09Template.aki_template_unchanged", "Props.C09Template.aki_sequence_independent", "Props.C09Template.aki_call_independent", "Props.C09Template.aki_no_stale_key_id", "Props.C09Template.old_aki_stale_witness", "Props.C09Template.csr_template_unchanged", "Props.C09Template.csr_sequence_independent", "Props.C09Template.csr_call_independent", "Props.C09Template.appendFirst_others", "Props.C09Template.merge_other_attributes_untouched", "Props.C09Template.unspecified_not_specified", "Props.C09Template.old_csr_stale_witness",
         "Props.C17Mem.padMem_frame",
